@@ -110,3 +110,92 @@ def cellpars_from_ubi(ubi):
     be = np.degrees(np.arccos(G[0, 2] / a / c))
     ga = np.degrees(np.arccos(G[0, 1] / a / b))
     return np.array([a, b, c, al, be, ga])
+
+
+# ---------------------------------------------------------------- diffraction geometry
+# Written from the documentation of ImageD11 (docs + docstrings of transform.py): lab frame x along
+# the beam, y towards the door, z up; g = R(omega).C(chi).W(wedge).k ; no code shared with ImageD11.
+
+def rot_x(a):
+    c, s = np.cos(a), np.sin(a)
+    return np.array([[1, 0, 0], [0, c, -s], [0, s, c]], float)
+
+
+def rot_y(a):
+    c, s = np.cos(a), np.sin(a)
+    return np.array([[c, 0, s], [0, 1, 0], [-s, 0, c]], float)
+
+
+def rot_z(a):
+    c, s = np.cos(a), np.sin(a)
+    return np.array([[c, -s, 0], [s, c, 0], [0, 0, 1]], float)
+
+
+def geo_detector_rotation(p):
+    return rot_x(p["tilt_x"]) @ rot_y(p["tilt_y"]) @ rot_z(p["tilt_z"])
+
+
+def geo_xyz_lab(sc, fc, p):
+    """lab coordinates (3,n) of detector positions (slow, fast)."""
+    z = (np.asarray(sc, float) - p["z_center"]) * p["z_size"]
+    y = (np.asarray(fc, float) - p["y_center"]) * p["y_size"]
+    f0 = p["o11"] * z + p["o12"] * y
+    f1 = p["o21"] * z + p["o22"] * y
+    vec = np.array([np.zeros_like(f0), f1, f0])
+    out = geo_detector_rotation(p) @ vec
+    out[0] += p["distance"]
+    return out
+
+
+def geo_W(wedge_deg):
+    return rot_y(np.radians(wedge_deg))           # W = [[c,0,s],[0,1,0],[-s,0,c]]
+
+
+def geo_C(chi_deg):
+    return rot_x(-np.radians(chi_deg))            # C = [[1,0,0],[0,c,s],[0,-s,c]]
+
+
+def geo_grain_origins(omega_eff_deg, p, t):
+    """position of the grain (3,n) in the lab for each peak: W^-1 C^-1 R^-1 t"""
+    om = np.radians(np.asarray(omega_eff_deg, float))
+    t = np.asarray(t, float)
+    v = np.array([np.cos(om) * t[0] - np.sin(om) * t[1],
+                  np.sin(om) * t[0] + np.cos(om) * t[1],
+                  np.full(om.shape, t[2])])
+    return geo_W(p["wedge"]).T @ (geo_C(p["chi"]).T @ v)
+
+
+def geo_tth_eta(s1):
+    eta = np.degrees(np.arctan2(-s1[1], s1[2]))
+    tth = np.degrees(np.arctan2(np.hypot(s1[1], s1[2]), s1[0]))
+    return tth, eta
+
+
+def geo_k(tth_deg, eta_deg, wvln):
+    th = np.radians(tth_deg) / 2
+    eta = np.radians(eta_deg)
+    ds = 2 * np.sin(th) / wvln
+    return np.array([-ds * np.sin(th), -ds * np.cos(th) * np.sin(eta), ds * np.cos(th) * np.cos(eta)])
+
+
+def geo_g_from_k(k, omega_eff_deg, p):
+    om = np.radians(np.asarray(omega_eff_deg, float))
+    kk = geo_C(p["chi"]) @ (geo_W(p["wedge"]) @ k)
+    return np.array([np.cos(om) * kk[0] + np.sin(om) * kk[1],
+                     -np.sin(om) * kk[0] + np.cos(om) * kk[1],
+                     kk[2]])
+
+
+def geo_forward(sc, fc, omega_deg, p, t=(0, 0, 0)):
+    """everything for a set of peaks: dict with xyz (3,n), tth, eta, k, g (3,n), ds"""
+    om = np.asarray(omega_deg, float) * p.get("omegasign", 1.0)
+    xyz = geo_xyz_lab(sc, fc, p)
+    s1 = xyz - geo_grain_origins(om, p, t)
+    tth, eta = geo_tth_eta(s1)
+    k = geo_k(tth, eta, p["wavelength"])
+    g = geo_g_from_k(k, om, p)
+    return dict(xyz=xyz, tth=tth, eta=eta, k=k, g=g, ds=np.sqrt((g * g).sum(axis=0)))
+
+
+def eta_diff(a, b):
+    return (np.asarray(a) - np.asarray(b) + 180.0) % 360.0 - 180.0
